@@ -55,8 +55,12 @@ impl PortRange {
                 }
             }
             Self::Range(start, end) => {
-                let port_count = end - start + 1;
-                if count != port_count {
+                // `end - start + 1` does not fit u16 for the range 0-65535
+                let Some(span) = end.checked_sub(*start) else {
+                    return Err(eyre!("End port must be greater than start port"));
+                };
+                let port_count = u32::from(span) + 1;
+                if u32::from(count) != port_count {
                     error!("The count ({count}) does not match the number of ports ({port_count})");
                     return Err(eyre!(
                         "The count ({count}) does not match the number of ports ({port_count})"
